@@ -79,7 +79,11 @@ pub fn check_picture(pic: &str) -> Result<bool, String> {
     }
     // the one-shot parse wrapper compiles the same picture: whatever it answers for the text,
     // it must not call the picture itself invalid
-    if let Ok(Err(Error::InvalidFormat(m))) = ad::parse_type(Kind::Ts, "?", pic) {
+    // (pictures with the output-only codes W / WW are left out: the statement does not say
+    // which error parsing reports for those)
+    let output_only = toks.iter().any(|t| matches!(t, Tok::W | Tok::WW));
+    if output_only {
+    } else if let Ok(Err(Error::InvalidFormat(m))) = ad::parse_type(Kind::Ts, "?", pic) {
         return Err(format!("picture {pic:?} compiles with Formatter::try_new but Timestamp::parse rejects the picture itself: InvalidFormat({m:?})").chars().take(900).collect());
     }
     let want_text = render(&v, &toks).expect("every token applies to a timestamp");
